@@ -20,7 +20,8 @@ from pydec.pwfile_check import classify
 DOMAIN = "saveatomic"
 ACTIONS = ["DoCreate", "DoBuild", "DoHand", "DoAllHanded", "DoFlush", "DoSysWrite", "DoRename", "DoRemoveTmp",
            "DoReturn", "DoSinkHand", "DoSinkWrite", "DoCrash"]
-DEVIANTS = [("dropflush", ("NeverTorn", "AllOrNothing")), ("unwrap", ("ErrorNotPanic",)), ("inplace", ("NeverTorn",))]
+DEVIANTS = [("dropflush", ("NeverTorn", "AllOrNothing")), ("unwrap", ("ErrorNotPanic",)), ("inplace", ("NeverTorn",)),
+            ("notrunc", ("NeverTorn", "AllOrNothing"))]
 UNIT = 2048          # bytes per model unit in MC_SaveAtomic_replay.cfg (BufCap = 4 units = 8192 bytes)
 SEQ = ("xlsx", "light", "csv")
 PW = ("pw", "pwlight", "setpw")
@@ -30,10 +31,12 @@ INCLUDE_SET_PASSWORD = True
 # ---------------------------------------------------------------------------------------------
 # cases
 # ---------------------------------------------------------------------------------------------
-def path_case(inst, vol, existed, fault, oldvol=None, origin="gen"):
+def path_case(inst, vol, existed, fault, oldvol=None, origin="gen", stale=0):
+    """stale = k > 0: a temporary file <dest>tmp of k junk bytes is already there (an earlier save was killed)"""
     if oldvol is None:
         oldvol = 3000 if inst == "csv" else 40
-    return {"kind": "path", "inst": inst, "vol": vol, "oldvol": oldvol, "existed": existed, "fault": fault, "origin": origin}
+    return {"kind": "path", "inst": inst, "vol": vol, "oldvol": oldvol, "existed": existed, "fault": fault, "stale": stale,
+            "origin": origin}
 
 
 def sink_case(inst, vol, accepts, after, origin="gen"):
@@ -186,7 +189,12 @@ def realise(item, ref):
         f = inject(ref.kill_before(cfgk, ("call", calls[j]) if j < len(calls) else ("end",)))
     else:
         return None
-    c = path_case(inst, vol, existed, f, origin="tlc")
+    # a left-over temporary file shorter than / as long as / longer than the file a fault-free save writes
+    ms, stale = model["cfg"].get("stale", 0), 0
+    if ms > 0:
+        total = inf["reflen"]
+        stale = max(1, total - 1) if ms < msize else total if ms == msize else total + (1 if model["cfg"]["existed"] else 5000)
+    c = path_case(inst, vol, existed, f, origin="tlc", stale=stale)
     c["model"] = model
     return c
 
@@ -289,6 +297,34 @@ def boundary_cases(chk, ref, quick):
             for k in sorted(x for x in ks if 0 <= x < ncalls):
                 cases.append(path_case(inst, vol, ex, inject(ref.kill_before(cfgk, ("call", k)))))
             cases.append(path_case(inst, vol, ex, inject(ref.kill_before(cfgk, ("end",)))))
+    # a left-over temporary file (an earlier save to the same path was killed), shorter / as long / longer than
+    # the new file, for every entry point: fault-free saves and one fault of each kind
+    stale_cfgs = [("csv", 100), ("csv", 8192), ("csv", 16385), ("xlsx", 0), ("xlsx", 300), ("light", 0), ("pw", 0), ("pwlight", 0)]
+    if not quick:
+        stale_cfgs += [("csv", 4096), ("csv", 65536), ("xlsx", 100), ("xlsx", 2000), ("light", 400), ("pw", 300), ("pw", 2000)]
+    if INCLUDE_SET_PASSWORD:
+        stale_cfgs.append(("setpw", 0))
+    for inst, vol in stale_cfgs:
+        cfgk = (inst, vol, True)
+        inf = ref.info[cfgk]
+        total = inf["reflen"]
+        lens = {1, total // 2, total - 1, total, total + 1, total + 4096, 3 * total}
+        if not quick:
+            lens |= {total - 4096, total + 8192, total + 8193, 10 * total} | {rng.randrange(1, 4 * total) for _ in range(12)}
+        for k in sorted(x for x in lens if x > 0):
+            for ex in ((True, False) if (k > total or not quick) else (True,)):
+                cases.append(path_case(inst, vol, ex, {"t": "none"}, stale=k))
+        big = total + 3000
+        nw = len(ref.writes(cfgk))
+        ncalls = len(inf["calls"])
+        cases.append(path_case(inst, vol, True, {"t": "fsize", "k": total // 2}, stale=big))
+        cases.append(path_case(inst, vol, True, {"t": "fsize", "k": total - 1}, stale=big))
+        cases.append(path_case(inst, vol, True, inject(f"write:error=ENOSPC:when={nw}+"), stale=big))
+        cases.append(path_case(inst, vol, True, inject("rename:error=EIO:when=1"), stale=big))
+        cases.append(path_case(inst, vol, True, {"t": "rodir"}, stale=big))
+        cases.append(path_case(inst, vol, True, inject(ref.kill_before(cfgk, ("call", 1))), stale=big))
+        cases.append(path_case(inst, vol, True, inject(ref.kill_before(cfgk, ("call", ncalls - 1))), stale=big))
+        cases.append(path_case(inst, vol, False, inject(ref.kill_before(cfgk, ("end",))), stale=big))
     if INCLUDE_SET_PASSWORD:
         for ex in (True, False):
             inf = ref.info[("setpw", 0, ex)]
@@ -374,8 +410,9 @@ def judge(chk, cases, pre=None):
 
 def nontrivial_key(case, evs):
     """a case is non-trivial if a fault really happened in it: a failed or short system call on a file of the
-    directory, a kill, a failing writer"""
+    directory, a kill, a failing writer - or if a left-over temporary file was in the way"""
     hit = any((e.get("a") == "Sys" and e.get("res") in ("err", "short")) or e.get("a") == "Crash" or
+              (e.get("a") == "Begin" and e.get("tmp0") == "stale") or
               (e.get("a") == "SinkWrite" and e.get("res") in ("err", "zero", "intr")) or
               (e.get("a") == "SinkWrite" and e.get("m", 0) < e.get("n", 0)) for e in evs)
     return key_of(case) if hit else None
@@ -476,11 +513,12 @@ def run(chk):
     chk.rule = ("a case is one save of the real library: instance (xlsx, light xlsx, csv, password, password light, "
                 "set_password / writer variants), workbook size, destination present or not, and one real fault (RLIMIT_FSIZE "
                 "at byte k, an error injected at the i-th write/rename/unlink/close, unwritable directory, directory in the "
-                "way, SIGKILL before the j-th system call or at a random instant; for writers: bytes accepted per call and "
+                "way, a left-over temporary file of k junk bytes shorter / as long / longer than the new file, SIGKILL "
+                "before the j-th system call or at a random instant; for writers: bytes accepted per call and "
                 "then error / Ok(0) / interruption); cases = TLC's behaviours under every realisable fault plan mapped to "
                 "real sizes + boundary offsets around 4096/8192/file size + every call index; distinct = different "
-                "(instance, size, destination, fault); non-trivial = a system call really failed or was short, the process "
-                "was killed, or the writer failed / took fewer bytes than offered (measured from the recorded events)")
+                "(instance, size, destination, left-over temporary file, fault); non-trivial = a system call really failed or was short, the process "
+                "was killed, a left-over temporary file was there, or the writer failed / took fewer bytes than offered (measured from the recorded events)")
     for c, e in zip(allc, alle):
         if c.get("origin") == "finding" and len(chk.samples) < 3:
             chk.sample({"case": {k: v for k, v in c.items() if k != "model"}, "events": e})
